@@ -122,22 +122,24 @@ def run(ctx, R, tier):
         f1, f2 = m["loads"], m["loadsCall"]
         rets1 = [n for n in walk_no_nested(f1.node) if isinstance(n, ast.Return) and n.value is not None]
         rets2 = [n for n in walk_no_nested(f2.node) if isinstance(n, ast.Return) and n.value is not None]
-        if len(rets1) != 1 or len(rets2) != 1:
-            raise AnalysisError("%s: loads/loadsCall expected to have one return each" % name)
-        r1 = applies(ctx, f1, rets1[0].value, "recreate_classes", ctx.cfg(f1).nodes_for(rets1[0])[0])
-        v2 = rets2[0].value
-        if isinstance(v2, ast.Tuple) and len(v2.elts) == 4:
-            node2 = ctx.cfg(f2).nodes_for(rets2[0])[0]
-            rv = applies(ctx, f2, v2.elts[2], "recreate_classes", node2)
-            rk = applies(ctx, f2, v2.elts[3], "recreate_classes", node2)
-            hooks2 = bool(dlc) and ("object_hook" in kwmap(dlc[0][0]))
-        else:
-            rv = rk = applies(ctx, f2, v2, "recreate_classes", ctx.cfg(f2).nodes_for(rets2[0])[0])
-            hooks2 = bool(dlc) and ("object_hook" in kwmap(dlc[0][0]))
+        if not rets1 or not rets2:
+            raise AnalysisError("%s: loads/loadsCall without a return value" % name)
+        r1 = all(applies(ctx, f1, r.value, "recreate_classes", ctx.cfg(f1).nodes_for(r)[0]) for r in rets1)
+        rv = rk = True
+        for r in rets2:
+            v2 = r.value
+            node2 = ctx.cfg(f2).nodes_for(r)[0]
+            if isinstance(v2, ast.Tuple) and len(v2.elts) == 4:
+                rv = rv and applies(ctx, f2, v2.elts[2], "recreate_classes", node2)
+                rk = rk and applies(ctx, f2, v2.elts[3], "recreate_classes", node2)
+            else:
+                x = applies(ctx, f2, v2, "recreate_classes", node2)
+                rv, rk = rv and x, rk and x
+        hooks2 = bool(dlc) and ("object_hook" in kwmap(dlc[0][0]))
         hooks1 = bool(dl) and ("object_hook" in kwmap(dl[0][0]))
         R.check((r1 or hooks1) == (rv or hooks2) == (rk or hooks2) and (r1 or hooks1), "C01-R1", "%s|class-recreation" % name,
                 "class re-creation is applied to results, positional arguments and keyword arguments alike", f2.loc(),
-                "recreate_classes applied to: result=%s vargs=%s kwargs=%s — class-tagged values (exceptions, URIs, proxies, sets) arrive as raw dicts in the "
+                "recreate_classes applied on every path to: result=%s vargs=%s kwargs=%s — class-tagged values (exceptions, URIs, proxies, sets) arrive as raw dicts in the "
                 "position that is not re-created" % (r1 or hooks1, rv or hooks2, rk or hooks2))
         # ------------------------------------------------------------ R2
         el, elc = lib_calls(ctx, m["dumps"], ENCODERS), lib_calls(ctx, m["dumpsCall"], ENCODERS)
